@@ -538,6 +538,10 @@ def fresh_fn(elem, name, nidx, wf):
         return lambda *i: PyObj(elem.cls, {k: g(*i) for k, g in gs.items()})
     if isinstance(elem, Const):
         return lambda *i: elem.value
+    if isinstance(elem, FnOf):
+        args = elem.args or [Real] * elem.arity
+        f = z3.Function(uid(name + ".fn"), *isorts, *[z3sort(a.sort) for a in args], z3sort(elem.ret.sort))
+        return lambda *i: UFun(name, lambda *a: f(*[to_z3(x) for x in i], *[coerce(x, s_) for x, s_ in zip(a, args)]))
     if isinstance(elem, NoneT):
         return lambda *i: None
     if isinstance(elem, IntMapOf):
